@@ -45,7 +45,8 @@ M(v, uri, local) == [op |-> "match", v |-> v, qn |-> <<uri, local>>]
 \* API operations and their footprints
 ApiNames == {"serA", "serB", "parseA", "parseB", "parseXsi", "parseXsiWrong", "parseNoClass", "parseUnknown",
              "parseBroken", "serOther", "decNoClass", "import", "reset",
-             "parseW1ok", "parseW1bad", "parseW1other", "parseW2same", "parseW2other"}
+             "parseW1ok", "parseW1bad", "parseW1other", "parseW2same", "parseW2other",
+             "decDerived", "decNoClassNarrow"}
 Footprint(name) ==
   CASE name = "serA"         -> << B(1, NONE), B(3, "urn:a") >>
     [] name = "serB"         -> << B(2, NONE), B(3, "urn:b") >>
@@ -63,6 +64,11 @@ Footprint(name) ==
     \* class without a parent namespace (local_names_match)
     [] name = "decNoClass"   -> << [op |-> "index"] >> \o
                                 [c \in 1..Len(MCClasses) |-> [op |-> "trybuild", c |-> c, pns |-> NONE]]
+    \* decode with the class given (Derived alone enters the cache), and class detection for an object whose keys fit
+    \* Base AND Derived: the answer is computed from the index of ALL classes, never from what the cache happens to hold
+    [] name = "decDerived"       -> << B(5, NONE) >>
+    [] name = "decNoClassNarrow" -> << [op |-> "index"] >> \o
+                                    [c \in 1..Len(MCClasses) |-> [op |-> "trybuild", c |-> c, pns |-> NONE]]
     [] name = "parseW1ok"    -> << F(9, NONE, NONE), M(1, "urn:allowed", "item") >>
     [] name = "parseW1bad"   -> << F(9, NONE, NONE), M(1, "urn:forbidden", "item") >>
     [] name = "parseW1other" -> << F(9, NONE, NONE), M(1, "urn:allowed", "other") >>
